@@ -1,5 +1,5 @@
 (* C13 - disconnect always releases the connection; a new connection starts clean. *)
-From LibFtp Require Import Bytes Decimal Reply Endpoint Ascii DataConn DataConn_Proofs Client Client_Proofs Login_Proofs Transfer_Proofs Transfer_More Modes_Proofs Ctl_Proofs History_Proofs Session_Proofs.
+From LibFtp Require Import Bytes Decimal Reply Endpoint Ascii DataConn DataConn_Proofs Client Client_Proofs Login_Proofs Transfer_Proofs Transfer_More Modes_Proofs Ctl_Proofs History_Proofs History2_Proofs Session_Proofs.
 Local Open Scope N_scope.
 
 (* non-graceful disconnect from ANY state (failed control or data handshake, dead peer, exception in the middle of
@@ -44,6 +44,7 @@ Theorem C13_connect_starts_in_step : forall w h p s srest g,
   r_now (s_greeting s) = [RReply g] -> r_close_after (s_greeting s) = false -> code g <> 421 -> code g <> 120 ->
   exists w', step w (AConnect h p None) = (OReturn (RvReplies [g]), w') /\
     insync w' (s_reactions s) /\ w_script w' = srest /\ w_ssl w' = false /\ w_cfg w' = w_cfg w /\
+    w_cur6 w' = s_ip6 s /\ w_tls_clean w' = s_tls_close_clean s /\
     wire_events (skipn (length (w_trace w)) (w_trace w')) = [WReply g] /\
     obs_events (skipn (length (w_trace w)) (w_trace w')) = told (w_obs w) (OConnected h p) ++ told (w_obs w) (OReply g).
 Proof. exact connect_plain. Qed.
@@ -58,3 +59,15 @@ Theorem C13_quit_releases : forall w r rest x,
     wire_events (skipn (length (w_trace w)) (w_trace w')) = [WLine QUIT_; WReply x].
 Proof. exact quit_call. Qed.
 Print Assumptions C13_quit_releases.
+
+(* graceful disconnect from a TLS session in step with a peer that answers the close-notify: the full trace - QUIT inside TLS, its reply, TLS shutdown, TCP shutdown, close, socket object back to plain *)
+Theorem C13_quit_releases_tls : forall w r rest x,
+  insync w (r :: rest) -> w_ssl w = true -> w_tls_up w = true -> w_tls_clean w = true -> simple_reaction r x ->
+  exists w', step w (ADisconnect true) = (OReturn (RvOptReply (Some x)), w') /\
+    w_open w' = false /\ w_ssl w' = false /\ w_tls_up w' = false /\ w_backlog w' = [] /\ w_pending w' = [] /\ w_data w' = w_data w /\
+    w_script w' = w_script w /\
+    skipn (length (w_trace w)) (w_trace w') =
+      block (w_obs w) (ORequest QUIT_) ++ [EWire true (w_ord w) QUIT_] ++ [ERecv (w_ord w) x] ++ block (w_obs w) (OReply x) ++
+      [ECtl (CTlsShutdown true); ECtl CTcpShutdown; ECtl CClose; ECtl (CSetSsl false)].
+Proof. exact quit_call_tls. Qed.
+Print Assumptions C13_quit_releases_tls.
